@@ -255,6 +255,13 @@ class Cx:
         self.prove_eq(label, A, numpy.zeros(A.shape, dtype=int) if A.dtype != object
                       else numpy.zeros(A.shape, dtype=int), **kw)
 
+    def failed_so_far(self):
+        """has any assertion on this path already been refuted (sym: sat; replay: violated)?  Harnesses use
+        it to stop before work that only makes sense when the cheaper assertions held."""
+        if self.sym:
+            return any(r.get("verdict") == "sat" for r in self.records)
+        return bool(self.replay_violations)
+
     def fail(self, label, detail):
         """an unconditional violation on this path (e.g. an exception in the code under test)"""
         if self.sym:
